@@ -182,8 +182,10 @@ fn check_coverage(spec: &CmdSpec) -> Vec<(String, String)> {
 
 // ---- part 2
 const ATOMS: [&str; 9] = [".", "'", "\\", "-", ".SH", ".\\\"", " ", "\"", "é"];
-const SLOTS: [&str; 15] = [
+const SLOTS: [&str; 20] = [
     "about", "long_about", "before_help", "after_help", "after_long_help", "author", "version", "long_version", "arg_help", "arg_long_help", "pos_help", "pv_help", "sub_about", "help_heading", "value_name",
+    // the page's own metadata, set through the `Man` builder
+    "man_title", "man_section", "man_date", "man_source", "man_manual",
 ];
 
 fn hostile_lines() -> Vec<String> {
@@ -258,10 +260,25 @@ fn requests(page: &str) -> BTreeMap<String, usize> {
     m
 }
 
+fn render_slot(slot: &str, text: &str) -> String {
+    let mut man = Man::new(build(&slot_cmd(slot, text)));
+    man = match slot {
+        "man_title" => man.title(text.to_string()),
+        "man_section" => man.section(text.to_string()),
+        "man_date" => man.date(text.to_string()),
+        "man_source" => man.source(text.to_string()),
+        "man_manual" => man.manual(text.to_string()),
+        _ => man,
+    };
+    let mut buf: Vec<u8> = vec![];
+    man.render(&mut buf).expect("render to Vec");
+    String::from_utf8_lossy(&buf).to_string()
+}
+
 fn check_text(slot: &str, text: &str) -> Vec<(String, String)> {
     let mut bad = vec![];
-    let hostile = render(&slot_cmd(slot, text));
-    let base = render(&slot_cmd(slot, &innocuous(text)));
+    let hostile = render_slot(slot, text);
+    let base = render_slot(slot, &innocuous(text));
     let (rh, rb) = (requests(&hostile), requests(&base));
     if rh != rb {
         let mut diff = vec![];
